@@ -266,9 +266,9 @@ Proof. induction 1 as [|t l Ht Hl IH]; [reflexivity|]. cbn [cut_bars]. rewrite H
 
 (* what ./check composes: the runner hands "<case> || <trace>" (the trace is empty for these cases) to [run_model] and [run_spec] *)
 Theorem model_meets_spec_entry_lemma (l tr : list tok) (c : case) :
-  parse_case l = Some c -> is_srace l = false -> plain "||" l ->
+  parse_case l = Some c -> is_srace l = false -> is_mrace l = false -> plain "||" l ->
   run_spec (l ++ tag "||" :: tr) (run_model (l ++ tag "||" :: tr)) = [] /\ run_spec l (run_model l) = [].
 Proof.
-  intros H Hs Hp. unfold run_spec, run_model. rewrite (cut_bars_plain l tr Hp), (cut_bars_none l Hp), Hs.
+  intros H Hs Hm Hp. unfold run_spec, run_model. rewrite (cut_bars_plain l tr Hp), (cut_bars_none l Hp), Hs, Hm.
   split; apply (model_meets_spec_wire_lemma l c H).
 Qed.
